@@ -23,7 +23,7 @@ THEOREMS = ["Mistune.m_sound", "Mistune.spec_bounds", "Mistune.matchAt_sound", "
             "Mistune.allCfgs_consume", "Mistune.allCfgs_repBodies", "Mistune.namedRx_repBodies", "Mistune.no_unsupported"]
 
 BLOCK_OPEN = ["> ", "- ", "1. ", "* ", "+ ", ">! ", "> - ", "- > ", "1. > ", "> 1. ", "- - > ", ">\t", "-\t", "  - ", "   > "]
-INLINE_OPEN = [("*", "*"), ("**", "**"), ("_", "_"), ("[", "](u)"), ("![", "](u)"), ("<a>", "</a>"), ("[</a>", "](u)"),
+INLINE_OPEN = [("[![", "](u)](u)"), ("![[", "](u)](u)"), ("[a ![b ", "](u)](v)"), ("*", "*"), ("**", "**"), ("_", "_"), ("[", "](u)"), ("![", "](u)"), ("<a>", "</a>"), ("[</a>", "](u)"),
                ("`", "`"), ("~~", "~~"), ("==", "=="), ("^", "^"), ("[^", "]"), ("<b>", "</b>"), ("*_", "_*"),
                ("[![", "](a)](b)"), ("***", "***"), ("[*", "*](u)"), ("<", ">"), ("\\", ""), ("&", ";"), ("$", "$"), (">!", "!<")]
 DIRECTIVE_OPEN = ["```{note}\n", "````{note} T\n", ":::{note}\n", ".. note::\n\n   ", "```{figure} x.png\n", "```{toc}\n"]
@@ -44,12 +44,39 @@ def pumps(ctx, n):
         out.append((o1 + o2) * (n // 2) + "x" + (c2 + c1) * (n // 2))
     for d in DIRECTIVE_OPEN:
         out.append(d * min(n, 60) + "x\n")
+    # indentation ladders (each line one level deeper) and bare-marker ladders
+    for mk in ("-", "- a", "1.", "1. a", ">", "> a", "*", "+ a", ":   t", "- [ ] a"):
+        out.append("".join("  " * i + mk + "\n" for i in range(n)))
+        out.append("".join("   " * i + mk + "\n" for i in range(n)))
+    out.append("term\n" + "".join("    " * i + ":   t%d\n" % i for i in range(min(n, 120))))
+    # adjacent repetitions of closed constructs (no nesting, long runs)
+    for unit in ("[a(b)]", "[^1]", "$x$", "~~a~~", "<a>", "&amp;", "![a](b)", "[a](b)", "<http://a.b>", "`a`", "*a*", "**a**", "\\*", "[a][b]",
+                 "<b>x</b>", "==a==", "^a^", ">!a!<", "http://a.b ", "a@b.c ", "| a ", "[x] ", "  \n", "\\\n", "<!-- a -->", "&#35;"):
+        out.append(unit * (n * 8))
+        out.append("[^1]: n\n\n[b]: u\n\n*[A]: t\n\n" + unit * (n * 4))
+    for info in ("&#32;", "&#9;", "&nbsp;", " &#x20; ", "&Tab;x", "&#32;py&#32;", "\\ ", "&#0;", "{&#32;}", "&"):
+        out.append("```" + info + "\ncode\n```\n")
+        out.append("~~~" + info + "\ncode\n~~~\n")
     out.append("> " * n + "```\n" + "> " * n + "x\n")
     out.append("- [ ] " * n + "x")
     out.append("| a " * n + "|\n" + "|---" * n + "|\n" + "| b " * n + "|\n")
     out.append("a\n: " * n + "x\n")
     out.append("[^1]: " * n + "x\n\n[^1]")
     out.append("*[A]: " * n + "\nA " * n)
+    return out
+
+
+def deep_pumps(ctx):
+    """few but very deep: recursion that is bounded only by a per-kind flag shows up past ~1000 levels"""
+    out = []
+    for o, c in INLINE_OPEN:
+        out.append(o * 1200 + "x" + c * 1200)
+    out.append("term\n" + "".join("    " * i + ":   t%d\n" % i for i in range(500)))
+    out.append("".join("  " * i + "- a\n" for i in range(500)))
+    out.append("".join("  " * i + "-\n" for i in range(500)))
+    out.append("".join(" " * i + "> a\n" for i in range(4)) + "> " * 1200 + "x\n")
+    out.append("[a(b)]" * 3000)
+    out.append("[^1]: x\n\n" + "[^1]" * 3000)
     return out
 
 
@@ -60,6 +87,7 @@ def documents(ctx, big=False):
     docs += [gen.rand_unicode(ctx.rng, 40) for _ in range(100 if q else 1000)]
     for n in ((30, 150) if q else (30, 150, 400)):
         docs += pumps(ctx, n)
+    docs += deep_pumps(ctx)
     return docs
 
 
@@ -72,6 +100,15 @@ def config_space(ctx, big=False):
         c["name"] = "rand-%d" % ctx.rng.randint(0, 10 ** 6)
         cfgs.append(c)
     return cfgs
+
+
+def crash_sig(r, d):
+    """exception type + innermost mistune frame; for recursion: the handler cycle + the punctuation alphabet of the input
+    (so that a different way into the same cycle is a different finding)"""
+    sig = "crash:%s@%s" % (r["exc"], r["where"])
+    if r["exc"] == "RecursionError":
+        sig += "#punct=" + "".join(sorted(set(c for c in d if not c.isalnum() and not c.isspace())))[:40]
+    return sig
 
 
 def oracle(ctx, docs, cfgs, per_doc=2, limit=20.0):
@@ -88,7 +125,7 @@ def oracle(ctx, docs, cfgs, per_doc=2, limit=20.0):
             n_ok += 1
             continue
         if r["status"] == "exc":
-            sig = "crash:%s@%s" % (r["exc"], r["where"])
+            sig = crash_sig(r, d)
             what = "%s in %s converting %r under %s" % (r["exc"], r["where"], d[:80], c["name"])
         elif r["status"] == "timeout":
             sig = "timeout"
@@ -217,7 +254,7 @@ def replay_known(ctx):
             tasks.append((ex["config"], eval(ex["doc_expr"], {"__builtins__": {}}), 30.0))
     for (c, d, _), r in zip(tasks, worker.run_all(tasks, workers=2)):
         if r["status"] == "exc":
-            ctx.fail("crash:%s@%s" % (r["exc"], r["where"]), "%s in %s (stored example of a known finding)" % (r["exc"], r["where"]), {"config": c, "doc": d})
+            ctx.fail(crash_sig(r, d), "%s in %s (stored example of a known finding)" % (r["exc"], r["where"]), {"config": c, "doc": d})
         else:
             ctx.notes.append("a stored known-finding example no longer fails: %r" % d[:40])
 
